@@ -292,6 +292,15 @@ parse_next_record_header:
         if (ssl->rec.len < 2 + TLS_GCM_TAG_LEN)
         {
             /* If it's this short, it cannot be an encrypted. */
+            if (ssl->rec.len != 2)
+            {
+                /* A plaintext alert record holds exactly one alert; any
+                   other length would leave part of the record unconsumed. */
+                ssl->err = SSL_ALERT_DECODE_ERROR;
+                psTraceIntInfo("Invalid plaintext alert length: %d\n",
+                        ssl->rec.len);
+                goto encodeResponse;
+            }
             rc = tls13ParseAndHandleAlert(ssl,
                     &pb,
                     in,
